@@ -23,6 +23,9 @@ Decides:
                    start returns at once: repeated groups are yielded block by block in command-line order.
  F failfast        `.adjacent()` on a construct! group turns failfast on (shared with C01.F): a member that does not match
                    stops the attempt instead of being searched for further right.
+ S withheld        once adjacent_scope has found a window it answers None ONLY when the window equals the current scope (an empty window is a
+                   proposal: `drink eat Fastfood`); State::get / ArgsIter yield only in-scope present items (the probe on a one-item window
+                   cannot see the value slot outside it; shared with C05).
 Does not decide: which vectors are accepted for a given shape (index arithmetic over run-time ledgers)."""
 import re
 from core import *
